@@ -1,6 +1,7 @@
 package c12
 
 import (
+	"context"
 	"bytes"
 	"fmt"
 	"io"
@@ -65,7 +66,7 @@ func genT(t *rapid.T) TScript {
 				continue
 			}
 			responded[r] = true
-			s.Ops = append(s.Ops, TOp{Kind: "respond", Idx: r, N: rapid.SampledFrom([]int{0, 100, 16384, 70000, 300000}).Draw(t, "rsize"), Mode: rapid.SampledFrom([]string{"read-all", "read-all", "read-some", "cancel"}).Draw(t, "mode")})
+			s.Ops = append(s.Ops, TOp{Kind: "respond", Idx: r, N: rapid.SampledFrom([]int{0, 100, 16384, 70000, 300000}).Draw(t, "rsize"), Mode: rapid.SampledFrom([]string{"read-all", "read-all", "read-some", "cancel", "cancel-context-then-close", "cancel-context-then-close"}).Draw(t, "mode")})
 		default:
 			s.Ops = append(s.Ops, TOp{Kind: "wait"})
 		}
@@ -199,6 +200,9 @@ func execT(t *testing.T, s TScript) (viol *vstat.Violation, classes map[string]b
 		if v := process("setup"); v != nil {
 			viol = v
 		}
+		// the connection-level grant the transport makes at start-up (1 GiB) is window, not returned credit: the
+		// receive-side ledger counts what comes back for response bytes from here on
+		connReturned = 0
 		for i, op := range s.Ops {
 			if dead || viol != nil {
 				break
@@ -217,7 +221,9 @@ func execT(t *testing.T, s TScript) (viol *vstat.Violation, classes map[string]b
 					if r.size > 0 {
 						body = bytes.NewReader(pattern(r.size, r.idx))
 					}
-					req, _ := http.NewRequest("POST", "http://x"+path, body)
+					ctx, cancel := context.WithCancel(context.Background())
+					defer cancel()
+					req, _ := http.NewRequestWithContext(ctx, "POST", "http://x"+path, body)
 					if r.size > 0 {
 						req.ContentLength = int64(r.size)
 					}
@@ -234,6 +240,12 @@ func execT(t *testing.T, s TScript) (viol *vstat.Violation, classes map[string]b
 						mode, read := r.respMode, r.read
 						r.mu.Unlock()
 						if mode == "cancel" || mode == "read-some" && read >= 5000 {
+							break
+						}
+						if mode == "cancel-context-then-close" && read >= 1000 {
+							// the caller gives up through its context first and closes the body afterwards (the other
+							// order is the idiom; this one is just as legal)
+							cancel()
 							break
 						}
 						n, err := resp.Body.Read(buf)
